@@ -223,6 +223,16 @@ def run():
     if errs:
         raise tlc.MachineryError('harness error in dump replay: ' + errs[0])
     verd = validate(rep, recs)
+    # the binding binds: a record whose measured file is one byte longer than what the descriptor says must be rejected
+    import copy
+    probe = next((x for x, v in zip(recs, verd) if v['BytesOK'] and x.get('res') and x['res'][0]['bytes_enabled'] and x['res'][0]['path_exists']), None)
+    if probe is not None:
+        c1 = copy.deepcopy(probe)
+        c1['res'][0]['size'] += 1
+        v1 = validate(rep, [c1])[0]
+        if v1['BytesOK']:
+            raise tlc.MachineryError('DumpStatsTrace accepted a record whose file size differs from the recorded bytes: the trace spec does not bind')
+        rep.notes['trace_binding_selftest'] = 'a record whose measured file size is changed fails BytesOK'
     for c, rec, v in zip(cases, recs, verd):
         rep.count(1, traces=1)
         rep.mark_distinct(c)
